@@ -2,6 +2,7 @@
    protocol's byte order (kernel-evaluated on Gen); primitive level: the single `Endian` argument of each primitive
    is used for the count, every element and every length prefix (closed forms), so the LE variant emits the BE
    variant's bytes with each integer reversed. -/
+import FinProto.Obl.SPrims
 import FinProto.Obl.SEndian
 import FinProto.Obl.SNoOpaque
 import FinProto.Props.PrimLemmas
@@ -13,5 +14,8 @@ theorem C03_no_unrecognised_statement : Gen.env.noOpaque = true := gen_noOpaque
 
 theorem C03_scalar (w n : Nat) : writeScalar w .le n = (writeScalar w .be n).reverse := by
   simp [writeScalar, toE_le_eq_reverse_be]
+
+/-- the primitives, template-translated from the current source, are the pinned ones (or unrecognised) -/
+theorem C03_prims : primsAgree Gen.prims pinnedPrims = true := gen_prims_agree
 
 end FinProto.Obl
